@@ -2,7 +2,7 @@
     (character recipes; the wordlist part is in C13wl below once WordGen is loaded). *)
 From Spg.Base Require Import Prelude Utf8 Bytes.
 From Spg.Model Require Import Tables Rand GenM CharSets CharGen Token WordList WordGen.
-From Spg.Proofs Require Import RandProofs SetProofs CountProofs GenProofs CharGenProofs AcceptProofs WordGenProofs.
+From Spg.Proofs Require Import RandProofs SetProofs CountProofs GenProofs CharGenProofs AcceptProofs WordGenProofs WordPicksProofs.
 From Coq Require Import QArith.
 
 (** The decision: bad length, else empty alphabet, else the pre-flight check,
@@ -96,6 +96,13 @@ Example C13_examples :
   char_generate default_budget (mkCR 5 0 0 0 [97;98;99]%N [] [97;98;99]%N) = Ret (Err ENoChars).
 Proof. vm_compute. repeat split. Qed.
 
+(** ... and on no stream of raw words does it draw from zero alternatives (the
+    randomUint32n(0) panic): every bound it draws over is in [1, 2^32). *)
+Theorem C13_wordlist_never_draws_from_zero : forall title b r ws rest,
+  (N.of_nat (wl_size r) < W32)%N -> (wrLength r < Z.of_N W32)%Z -> sep_small (wrSep r) ->
+  run_words (wl_generate title b r) ws <> RZero rest.
+Proof. exact wl_generate_no_zero. Qed.
+
 Print Assumptions C13_decision.
 Print Assumptions C13_outcomes.
 Print Assumptions C13_never_panics.
@@ -106,3 +113,4 @@ Print Assumptions C13_decision_exact.
 Print Assumptions C13_impossible_refused.
 Print Assumptions C13_attempts_bounded.
 Print Assumptions C13_wordlist_outcomes.
+Print Assumptions C13_wordlist_never_draws_from_zero.
